@@ -636,8 +636,8 @@ Definition sle_call (V : senv) (o : sle_oracle) (st : sle_st) (s : sstrm) (a : s
       let s := mksstrm (q_l s) (q_s s) T (match sa_P a with Some p => p | None => q_P s end) in
       match sa_sol a with
       | Some x =>
-        if negb (e_setup st) then (st, s, Err EOther)        (* AttributeError: _solid_mol *)
-        else
+        (* the two phase rows are bound from the indexer on this branch too (repair pending_fixes/C15_3;
+           before it a new SLE object raised AttributeError here) *)
           let mol_solute := nthq (q_s s) si + nthq (q_l s) si in
           let st := mksst (e_nonzero st) SAll (e_chemical st) (e_sgi st) true (e_act st) in
           match update_solubility si SAll mol_solute (q_l s) (q_s s) x with
